@@ -12,6 +12,7 @@ use srtla_core::{ConfigSnapshot, SchedulingMode};
 
 use crate::engine::selstate::TIMEOUTS;
 use crate::engine::shell::Shell;
+use srtla_send::sender::verif_hooks as vh;
 use crate::props::acct::Owners;
 use crate::refmodel::classic::{RefLink, RefSender};
 use crate::rt::{CheckResult, Ctx, Obs, idx};
@@ -37,6 +38,10 @@ pub struct Case {
     pub timeout: u8,
     pub quality: bool,
     pub ops: Vec<Op>,
+    /// a stall pre-history run with the guard ON before it is switched off at run time:
+    /// (victim link, its silence in ms, routing decisions taken meanwhile)
+    #[serde(default)]
+    pub pre_stall: Option<(u8, u16, u8)>,
 }
 
 fn adv() -> impl Strategy<Value = u32> {
@@ -61,7 +66,11 @@ pub fn strategy(max_ops: usize) -> impl Strategy<Value = Case> {
         3 => Just(Op::Housekeeping),
         8 => adv().prop_map(Op::Advance),
     ];
-    (vec(win, 1..=4), 0u8..TIMEOUTS.len() as u8, any::<bool>(), vec(op, 1..max_ops)).prop_map(|(windows, timeout, quality, ops)| Case { windows, timeout, quality, ops })
+    let pre = prop_oneof![
+        7 => Just(None),
+        3 => (any::<u8>(), prop_oneof![Just(250u16), Just(251), Just(300), 200u16..900], 1u8..6).prop_map(Some),
+    ];
+    (vec(win, 1..=4), 0u8..TIMEOUTS.len() as u8, any::<bool>(), vec(op, 1..max_ops), pre).prop_map(|(windows, timeout, quality, ops, pre_stall)| Case { windows, timeout, quality, ops, pre_stall })
 }
 
 fn client_pkt(kind: u8, seq: u32, counter: u32) -> Vec<u8> {
@@ -111,6 +120,50 @@ pub fn check(case: &Case, obs: &mut Obs, ctx: &Ctx) -> CheckResult {
     let mut owners = Owners::default();
     let mut counter: u32 = 5000;
     let mut next_seq: u32 = 100;
+    // the guard was on and is switched off at run time: one link is loaded, falls silent while another stays
+    // healthy and decisions are taken (silence pull / latch engage), everything is then acknowledged through the
+    // healthy link, the guard goes off and the reference model is re-synchronised from the links' real state
+    if let Some((v, silent_ms, decisions_meanwhile)) = case.pre_stall
+        && n >= 2
+    {
+        let v = v as usize % n;
+        let h = (v + 1) % n;
+        sh.st.cfg.stall_deselect = true;
+        let t = sh.now();
+        for k in 0..40u32 {
+            let pkt = client_pkt(0, 10 + k, 100 + k);
+            let Shell { rt, st } = &mut sh;
+            rt.block_on(vh::forward_via_connection(v, &pkt, Some(10 + k), &mut st.conns, &st.conn_io, &mut st.last_selected, &mut st.seq_tracker, t));
+        }
+        sh.flush_tick();
+        sh.advance(silent_ms as u64);
+        sh.uplink_pkt(h, &[0x80, 0x06, 0, 0, 0, 0, 0, 0]);
+        for k in 0..decisions_meanwhile as u32 {
+            sh.client_pkt(&client_pkt(0, 60 + k, 200 + k));
+        }
+        sh.flush_tick();
+        let mut ack = vec![0u8; 44];
+        ack[0] = 0x80;
+        ack[1] = 0x02;
+        ack[16..20].copy_from_slice(&99u32.to_be_bytes());
+        sh.uplink_pkt(h, &ack);
+        if sh.st.conns[v].is_stall_gated() {
+            obs.class("guard-switched-off-with-a-gated-link");
+        }
+        sh.st.cfg.stall_deselect = false;
+        let _ = sh.drain_wire();
+        let _ = sh.drain_client();
+        for i in 0..n {
+            let c = &sh.st.conns[i];
+            let l = &mut model.links[i];
+            l.window = c.window;
+            l.held = c.packet_log.keys().map(|s| *s as u32).collect();
+            l.queued = c.batch_sender.verif_queue_snapshot().into_iter().map(|(_, s)| s).collect();
+            l.registered = !matches!(c.phase, srtla_core::connection::LinkPhase::Registering);
+            l.connected = c.connected;
+            l.last_rx = c.last_received;
+        }
+    }
     let mut decisions = 0u64;
     let mut multi_score_decisions = 0u64;
     let mut window_changes = 0u64;
